@@ -52,6 +52,9 @@ func init() {
 			{ID: "C01.22", Desc: "header dates are decoded leniently everywhere", Run: func(c *Ctx) { ruleDatesThroughTheDecoder(c, "C01.22") }, MinSites: 1},
 			{ID: "C01.23", Desc: "age and lifetime saturate at the same bound", Run: func(c *Ctx) { ruleAgeNotCappedLower(c, "C01.23") }, MinSites: 1},
 			{ID: "C01.24", Desc: "max-stale with an argument tolerates that much staleness, max-stale=0 none", Run: func(c *Ctx) { ruleMaxStaleLimited(c, "C01.24") }, MinSites: 1},
+			{ID: "C01.25", Desc: "every legal HTTP-date form is decoded (no length gate in front of the parser)", Run: func(c *Ctx) { ruleDateDecoderNoLengthGate(c, "C01.25") }, MinSites: 1},
+			{ID: "C01.26", Desc: "`max-age=` (an empty argument) is still an explicit expiry: the scanner drops no directive because of its argument", Run: func(c *Ctx) { ruleScannerYieldsWhateverTheArgument(c, "C01.26") }, MinSites: 1},
+			{ID: "C01.27", Desc: "an Expires that is present but not a date is an explicit expiry (presence is not validity)", Run: func(c *Ctx) { ruleExpiresFoundIsPresence(c, "C01.27") }, MinSites: 1},
 		},
 	})
 }
